@@ -1070,7 +1070,10 @@ class slice(Stream):
 
     def update(self, x, who=None, metadata=None):
         ret = None
-        if self.state >= self.star and (self.state - self.star) % self.step == 0:
+        # (an element can still arrive after the node has detached itself at
+        # ``end``: an emission of the parent that was already under way)
+        if (self.state >= self.star and (self.end is None or self.state < self.end)
+                and (self.state - self.star) % self.step == 0):
             ret = self._emit(x, metadata=metadata)
         self.state += 1
         self._check_end()
@@ -1080,7 +1083,8 @@ class slice(Stream):
         if self.end is not None and self.state >= self.end:
             # we're done
             for upstream in self.upstreams:
-                upstream._remove_downstream(self)
+                if self in upstream.downstreams:
+                    upstream._remove_downstream(self)
 
 
 @Stream.register_api()
